@@ -13,6 +13,48 @@ mod workload;
 
 use workload::*;
 
+/// Global allocator with an optional ceiling on the size of a single allocation: the simulator's
+/// "memory pressure" fault. With the limit at 0 (always, except inside a memory-pressure process
+/// party of C06) it is the system allocator. A refused allocation returns null: fallible paths
+/// (`try_reserve`) see an error, infallible ones abort the (child) process, exactly as in a real
+/// process whose large allocations fail.
+pub struct LimitAlloc;
+pub static ALLOC_LIMIT: std::sync::atomic::AtomicUsize = std::sync::atomic::AtomicUsize::new(0);
+pub static ALLOC_REFUSED: std::sync::atomic::AtomicUsize = std::sync::atomic::AtomicUsize::new(0);
+
+unsafe impl std::alloc::GlobalAlloc for LimitAlloc {
+    unsafe fn alloc(&self, l: std::alloc::Layout) -> *mut u8 {
+        let lim = ALLOC_LIMIT.load(std::sync::atomic::Ordering::Relaxed);
+        if lim != 0 && l.size() > lim {
+            ALLOC_REFUSED.fetch_add(1, std::sync::atomic::Ordering::Relaxed);
+            return std::ptr::null_mut();
+        }
+        std::alloc::System.alloc(l)
+    }
+    unsafe fn alloc_zeroed(&self, l: std::alloc::Layout) -> *mut u8 {
+        let lim = ALLOC_LIMIT.load(std::sync::atomic::Ordering::Relaxed);
+        if lim != 0 && l.size() > lim {
+            ALLOC_REFUSED.fetch_add(1, std::sync::atomic::Ordering::Relaxed);
+            return std::ptr::null_mut();
+        }
+        std::alloc::System.alloc_zeroed(l)
+    }
+    unsafe fn dealloc(&self, p: *mut u8, l: std::alloc::Layout) {
+        std::alloc::System.dealloc(p, l)
+    }
+    unsafe fn realloc(&self, p: *mut u8, l: std::alloc::Layout, new_size: usize) -> *mut u8 {
+        let lim = ALLOC_LIMIT.load(std::sync::atomic::Ordering::Relaxed);
+        if lim != 0 && new_size > lim {
+            ALLOC_REFUSED.fetch_add(1, std::sync::atomic::Ordering::Relaxed);
+            return std::ptr::null_mut();
+        }
+        std::alloc::System.realloc(p, l, new_size)
+    }
+}
+
+#[global_allocator]
+static GLOBAL: LimitAlloc = LimitAlloc;
+
 fn corpus_filter() {
     install_panic_hook();
     let dir = verif_dir().join("corpus");
